@@ -35,6 +35,17 @@ pub fn gen_history(rng: &mut Rng) -> (CtxSpec, Vec<String>) {
     // a list large enough that nested macros do thousands of iterations (budgets, counters or
     // pools shared between executions show under that load, not on three-element lists)
     spec.vars.push(("big".into(), Value::List(Arc::new((0..64).map(Value::Int).collect()))));
+    // nested maps for selection chains (different programs select different paths of one variable)
+    {
+        let leaf = |k: &str, v: Value| -> Value { let mut m = std::collections::HashMap::new(); m.insert(cel_interpreter::objects::Key::String(Arc::new(k.to_string())), v); Value::Map(cel_interpreter::objects::Map { map: Arc::new(m) }) };
+        let mut auth = std::collections::HashMap::new();
+        auth.insert(cel_interpreter::objects::Key::String(Arc::new("uid".into())), Value::String(Arc::new("alice".into())));
+        auth.insert(cel_interpreter::objects::Key::String(Arc::new("role".into())), Value::String(Arc::new("admin".into())));
+        let mut req = std::collections::HashMap::new();
+        req.insert(cel_interpreter::objects::Key::String(Arc::new("auth".into())), Value::Map(cel_interpreter::objects::Map { map: Arc::new(auth) }));
+        req.insert(cel_interpreter::objects::Key::String(Arc::new("meta".into())), leaf("ip", leaf("v", Value::Int(4))));
+        spec.vars.push(("req".into(), Value::Map(cel_interpreter::objects::Map { map: Arc::new(req) })));
+    }
     // `k` is re-bound in every inner scope by the concurrency driver
     spec.vars.push(("k".into(), Value::Int(rng.range(0, 9))));
     spec.vars.push(("m".into(), gen_value(rng, &Ty::Map(Box::new(Ty::Str), Box::new(Ty::List(Box::new(Ty::Int)))), 2)));
@@ -45,6 +56,11 @@ pub fn gen_history(rng: &mut Rng) -> (CtxSpec, Vec<String>) {
         "xs + ys", "xs + [n]", "ys + xs + xs", "s + t", "s + 'x' + t", "(xs + [1]) + (xs + [2])", "xs.map(x, x + n)", "xs.filter(x, x > n)", "xs.all(x, x >= 0)", "xs.exists(x, x == n)",
         "zs[0] + xs", "zs + zs", "[xs, ys, xs + ys]", "xs.map(x, xs + [x])", "id(xs) + id(ys)", "id(s) + s", "size(xs + ys) == size(xs) + size(ys)", "xs", "ys", "s", "zs[0]", "{'k': xs}.k + xs",
         "m", "xs.map(x, s + string(x))", "xs + xs.map(x, x * 2)", "(xs + ys).filter(x, x != n) + xs", "n + 1", "xs == ys", "[s + s, s]", "xs.map(x, ys).map(l, l + [n])",
+        // selection chains on one root variable, several per history
+        "req.auth.uid", "req.auth.role", "req.meta.ip.v", "req.auth.uid + req.auth.role", "has(req.auth.role) ? req.auth.role : req.auth.uid", "[req.auth.role, req.meta.ip.v]",
+        // map literals with numerically equal keys of different kinds, indexed every way (a lookup
+        // that scans instead of hashing depends on the iteration order of that instance)
+        "{1: 'int', 1u: 'uint'}[1.0]", "{1: 'int', 1u: 'uint'}[1]", "{n: 'a', uint(n): 'b'}[uint(n)]", "{1: 'int', 1u: 'uint', 'k': 2}.map(e, e).size()", "1.0 in {1: 'int', 1u: 'uint'}",
         // a name that is a macro variable in one place and the scope's own variable in another
         "k + 1", "[1, 2].map(k, k * 2) + [k]", "xs.map(x, x + k)", "[5].exists(k, k > 2) ? k : 0 - k", "[k, k + 1].filter(k, k > 3) + [k]", "xs.all(k, k >= 0) && k >= 0",
     ];
